@@ -94,6 +94,14 @@ func genCRSTree(r *Rng) *crsTree {
 		// --all must not be that of the last file only
 		t.files["root/regex-assembly/include/zzz-formatted.ra"] = stdHeader + "\nabc\n"
 	}
+	if r.Chance(1, 4) {
+		// a backup copy of the rules file that also matches the rule-prefix glob and sorts first: update
+		// and compare must refuse (two candidates), not pick one
+		t.files["root/rules/REQUEST-942-A-BACKUP.bak"] = t.rules.Bytes()
+		for i := range t.targets {
+			t.targets[i].Valid = false
+		}
+	}
 	if r.Chance(1, 3) {
 		// decoys named like an assembly file but WITHOUT the extension: --all must not take them
 		for _, rule := range t.rules.Rules {
@@ -135,6 +143,7 @@ func genCRSTree(r *Rng) *crsTree {
 			t.strictTests[td+id+ext] = id
 		}
 	}
+	t.files[td+"942970.txt"] = "- test_id: 7\n- test_id: 9\n" // the only file for "renumber-tests 942970": not a test file
 	t.files[td+"README.md"] = "- test_id: 7\n"
 	t.files[td+"942990.yaml.orig"] = "- test_id: 7\n"
 	t.files["root/tests/regression/README.yaml"] = "- test_id: 7\n"
@@ -253,6 +262,7 @@ func treeCommands(t *crsTree, r *Rng) []treeCmd {
 			treeCmd{name: "format --check " + tg.Arg, args: []string{"regex", "format", tg.Arg, "--check"}, inspect: true, target: none})
 		break
 	}
+	cmds = append(cmds, treeCmd{name: "renumber-tests 942970 (decoy .txt only)", args: []string{"util", "renumber-tests", "942970"}, target: isTest})
 	for _, id := range t.testIDs {
 		cmds = append(cmds,
 			treeCmd{name: "renumber-tests " + id, args: []string{"util", "renumber-tests", id}, target: isTest},
@@ -458,6 +468,11 @@ func suiteTreeFrame(env *Env, res *Result) {
 			if (c.res.Exit != 0) != (len(wch) > 0) {
 				res.addFailure(Failure{Kind: pr.prop, Shape: pr.shape + "_verdict_disagrees_with_rewrite", Input: input,
 					Detail: fmt.Sprintf("check exit %d, rewrite changes %v (rewrite exit %d)", c.res.Exit, wch, w.res.Exit)})
+				if strings.HasPrefix(pr.write, "format") {
+					// the same observation for C08: the verdict of --all is not that of the files one by one
+					res.addFailure(Failure{Kind: "C08", Shape: "c08_format_all_check_status_differs_from_files", Input: input,
+						Detail: fmt.Sprintf("format --all --check exits %d although formatting changes %v", c.res.Exit, wch)})
+				}
 			}
 			if w.res.Exit != 0 {
 				res.addFailure(Failure{Kind: pr.prop, Shape: pr.shape + "_rewrite_fails", Input: input, Detail: fmt.Sprintf("exit %d: %s", w.res.Exit, clip(w.res.Stderr, 200))})
